@@ -296,7 +296,6 @@ func parseEnvCase(s string) (envCase, bool) {
 // pack builds the envelope for the case; it returns the parties (0 = sender, 1..n recipients, n+1 outsider) and the
 // per-party packers.
 func envBuild(c envCase, payload []byte, seed int) ([]byte, []*envParty, []packer.Packer, error) {
-	legacy := c.kind == "la" || c.kind == "ln"
 	parties := envParties(c.kt, c.nrec+2)
 	var reg vdrapi.Registry = &mockvdr.MockVDRegistry{}
 	if c.kidstyle == "dd" {
@@ -310,6 +309,13 @@ func envBuild(c envCase, payload []byte, seed int) ([]byte, []*envParty, []packe
 		}
 		packers = append(packers, pk)
 	}
+	env, err := envBuildWith(c, payload, parties, packers)
+	return env, parties, packers, err
+}
+
+// envBuildWith packs with the given (already constructed) parties and packers.
+func envBuildWith(c envCase, payload []byte, parties []*envParty, packers []packer.Packer) ([]byte, error) {
+	legacy := c.kind == "la" || c.kind == "ln"
 	sender := parties[0]
 	var recs [][]byte
 	for i := 1; i <= c.nrec; i++ {
@@ -334,8 +340,7 @@ func envBuild(c envCase, payload []byte, seed int) ([]byte, []*envParty, []packe
 	case c.kind == "aj":
 		senderID = []byte(sender.kid + "." + sender.didKey)
 	}
-	env, err := packers[0].Pack("", payload, senderID, recs)
-	return env, parties, packers, err
+	return packers[0].Pack("", payload, senderID, recs)
 }
 
 func c01Run(input string) string {
@@ -398,6 +403,21 @@ func c01Run(input string) string {
 			s += "/" + envUnpack(packers[i], mutated).show(payload, parties[0], p, legacy, c.kidstyle)
 		}
 		outs = append(outs, s)
+	}
+	if mut == "none" {
+		// unpacking is not a one-shot affair: the same packer instances open a second, independent envelope of the same
+		// parties (q<i>) and then the first one again (r<i>); both must come out as the first time.
+		other := append([]byte("other-"), payload...)
+		if second, derr := envBuildWith(c, other, parties, packers); derr == nil {
+			for i, p := range parties {
+				outs = append(outs, fmt.Sprintf("q%d=%s", i, envUnpack(packers[i], second).show(other, parties[0], p, legacy, c.kidstyle)))
+			}
+			for i, p := range parties {
+				outs = append(outs, fmt.Sprintf("r%d=%s", i, envUnpack(packers[i], env).show(payload, parties[0], p, legacy, c.kidstyle)))
+			}
+		} else {
+			outs = append(outs, "second=fail")
+		}
 	}
 	return strings.Join(outs, " ")
 }
